@@ -300,7 +300,7 @@ def gen_op(rng, prop, world, idx, mask, nres_ops):
         op["mon"] = gen_monspec(rng, mkind, 2)
         op["mon_id"] = rng.randrange(0, 3) if rng.random() < 0.4 else 100 + idx
     op["dir"] = {"dtlocal": True} if ("dtlocal" in mask and rng.random() < 0.25) else {}
-    if world["mode"] == "stub" and cls in EXPLICIT and rng.random() < 0.0012:
+    if world["mode"] == "stub" and cls in EXPLICIT and rng.random() < 0.002:
         # marathon: one call of more than ten thousand iterations (cheap in the stub world),
         # against silent iteration caps and counters that only go wrong far from zero
         n = 10200 + rng.randrange(2500)
